@@ -14,7 +14,7 @@ only influences which of several errors is reported first, never ok-vs-error.
 
 The write loop itself is modelled over a small file-system state (`FS`) so that
 the one way a *successful plan* can still fail half-way — a path that is a
-directory, or that needs a file as a directory — is visible (finding D22).
+directory, or that needs a file as a directory — is visible (finding D33).
 
 Core-only.
 -/
